@@ -87,7 +87,14 @@ impl ResponseOutputFormat {
                 };
 
                 if !errors.is_empty() {
-                    response["error"] = json![{"csv": json![errors]}];
+                    // a response that already reports an error (for example a failed search)
+                    // keeps it; the csv mapping failure is then reported beside it
+                    let key = if response.get("error").is_some() {
+                        "csv_error"
+                    } else {
+                        "error"
+                    };
+                    response[key] = json![{"csv": json![errors]}];
                 }
                 Ok(row)
             }
